@@ -575,6 +575,10 @@ async fn decode_and_verify_responses(
     Ok(headers)
 }
 
+#[cfg(eigerco_lumina_verif)]
+#[path = "client_verif_hooks.rs"]
+pub mod verif_hooks;
+
 #[cfg(test)]
 mod tests {
     use super::*;
